@@ -51,6 +51,7 @@ type File struct {
 	Docs    []string `json:"docs,omitempty"`
 	Data    Bytes    `json:"data"`
 	Mode    uint32   `json:"mode"`
+	Symlink string   `json:"symlink,omitempty"` // a symbolic link with this (possibly relative) destination
 	Dir     bool     `json:"dir,omitempty"`     // a directory in place of a file
 	Missing bool     `json:"missing,omitempty"` // not created at all
 }
